@@ -14,6 +14,8 @@ for line in open(os.path.join(root, "seeds.tsv")):
     if os.path.exists(os.path.join(d, "confirm.json")):
         conf = json.load(open(os.path.join(d, "confirm.json")))
     needs = open(os.path.join(d, "needs.txt")).read().strip()
+    note = open(os.path.join(d, "note.txt")).read().strip() if os.path.exists(os.path.join(d, "note.txt")) else ""
+    rebased = open(os.path.join(d, "REBASED.txt")).read().strip() if os.path.exists(os.path.join(d, "REBASED.txt")) else ""
     pkg = open(os.path.join(d, ".pkg")).read().strip() if os.path.exists(os.path.join(d, ".pkg")) else "."
     race = "-race " if prop == "C19" else ""
     res = {}
@@ -32,11 +34,12 @@ for line in open(os.path.join(root, "seeds.tsv")):
         "seed": name, "property": prop,
         "origin": "fresh sub-agent that was given only the text of the property and its own scratch worktree of /repo",
         "needs_to_manifest": needs,
+        "note": " ".join(x for x in (note, rebased) if x),
         "what_i_ran": {
             "where": "fresh scratch worktree of /repo HEAD %s under /tmp (removed afterwards), private network namespace" % conf.get("repo_head", "?"),
             "demonstration": "go test %s-vet=off -count=1 -run TestSeed ./%s   with patch.diff applied (must fail) and reverted (must pass)" % (race, pkg),
             "suite": "go build ./... && go test -vet=off -count=1 -timeout 25m -skip TestSeed ./...   with patch.diff applied (must pass)",
-            "checks": "VERIF_REPO=<worktree with patch.diff applied> ./bin/check <id>   (quick tier)",
+            "checks": "git -C /repo apply patch.diff; ./bin/check <id> (quick tier); git -C /repo checkout -- .   (tools/seedverify.sh official; VERIF_REPO=<worktree> gives the same result)",
         },
         "confirmed": conf,
         "kept": kept,
@@ -55,12 +58,15 @@ with open(os.path.join(root, "README.md"), "w") as f:
             "existing suite passes with it. `tools/seedverify.sh` is the procedure, `seeds.tsv` the list.\n\n")
     f.write("| seed | property | kept | reported by (quick tier) | first signatures |\n|---|---|---|---|---|\n")
     for m in rows:
-        det = ", ".join(m["detected_by"]) or "**missed**"
+        det = ", ".join(m["detected_by"]) or ("**missed**" if m["kept"] else "n/a (does not break the property on the current tree)")
         sig = "; ".join(s for c in m["detected_by"] for s in m["checks"][c]["signatures"][:2])
         why = ""
         if not m["kept"]:
             c = m["confirmed"]
             why = " (demo with=%s, without=%s, suite=%s)" % (c.get("demo_with_change_exit"), c.get("demo_without_change_exit"), c.get("suite_with_change_exit")) if c else " (not confirmed yet)"
         f.write("| %s | %s | %s%s | %s | %s |\n" % (m["seed"], m["property"], "yes" if m["kept"] else "no", why, det, sig.replace("|", "\\|")))
+    for m in rows:
+        if m.get("note"):
+            f.write("\n* **%s**: %s\n" % (m["seed"], m["note"]))
     f.write("\nWhat each change needs to manifest is in its `meta.json` (`needs_to_manifest`).\n")
 print("seeds:", len(rows), "kept:", sum(1 for m in rows if m["kept"]), "detected:", sum(1 for m in rows if m["detected_by"]))
